@@ -204,8 +204,8 @@ def run_case(template, seed):
         return None, "workflow timeout / handlers are outside the runner model"
     log = [(t, now) for (_, t, now) in PR.TICKLOG]
     PR.reset()
-    if not log or not obs.done:
-        return None, "run not finished"
+    if not log or not obs.done or obs.stuck:
+        return None, "run not finished (or ended by the driver because nothing could happen any more)"
     enc = Enc(sorted(spec["steps"]))
     start_tick, t0 = log[0]
     # which invocation produced which step-result tick, and what did it send
